@@ -721,6 +721,16 @@ impl<'a> Ctx<'a> {
                             self.sc.docs[d.doc].path, tj.nonce, to.report, tj.allowed, tj.why
                         ),
                     ));
+                    // a command that scrut itself aborted has produced no exit code either: reported
+                    // as SUCCEEDED it is C05's business as well as C14's
+                    if matches!(tj.allowed, Allowed::Exactly(Report::Timeout)) && to.report == Report::Success {
+                        out.push(v(
+                            "C05",
+                            "passed-without-exit-code",
+                            Some(&tj.nonce),
+                            format!("doc {} test {}: reported as succeeded although scrut aborted it ({})", self.sc.docs[d.doc].path, tj.nonce, tj.why),
+                        ));
+                    }
                 }
                 if to.results > 1 {
                     out.push(v(
